@@ -6,10 +6,10 @@ fn main() {
     install_quiet_panic_hook();
 
     if let Some(path) = &args.replay {
-        vlib::a1_checks::replay("C06", path);
+        vlib::a2_checks::replay("C02", path, false);
     }
 
-    let check = Check::new("C06", args);
+    let check = Check::new("C02", args);
 
-    vlib::a1_checks::c06(check);
+    vlib::a2_checks::c02(check);
 }
